@@ -1402,6 +1402,141 @@ def corpus_displacer_gone_before_ping(rng):
     return sc
 
 
+def gen_soup(rng, nn=None, mounts=None, nops=None):
+    """every kind of operation the harness has, mixed at random with no script behind it: connects (new, returning,
+    displacing, empty and prefix-related identifiers, wills), subscribe / unsubscribe sets, publishes of every QoS (retained,
+    empty, QoS 2 with and without its release), acknowledgements given or withheld, pings, the four ways to end, broken
+    connections, sweeps, time, write failures of logs and nodes, gossip delivered in whichever order, lost, or replaced
+    by full-state exchanges. No expectation is attached: the executable model is the oracle (plus the universal
+    monitors: no panic, no runaway, identifiers within 16 bits, and at the end — everything delivered — the listing of
+    every node agrees with the model's)."""
+    nn = nn or rng.choice([1, 2, 2, 3])
+    mounts = mounts or rng.choice([1, 1, 2])
+    sc = Scenario(rng, nn, mounts, prefix_names=(mounts > 1 and rng.random() < 0.5))
+    live = {}       # name -> dict(node, mount, cid, subs, muted)
+    gone_cids = {}  # mount -> set of identifiers whose sessions have ended
+    filters = ["a/#", "a/b", "#", "+/b", "w/#", "a/+", "t"]
+    topics = ["a/b", "a", "w/t", "t", "a/b/c", f"{sc.mounts[0]}/a"]
+
+    def ack_some():
+        for x in list(live):
+            if rng.random() < 0.7:
+                sc.ops.append(f"ackall {x}")
+
+    n_ops = nops or rng.choice([12, 20, 32])
+    for _ in range(n_ops):
+        r = rng.random()
+        names = sorted(live)
+        if r < 0.16 or not names:
+            if len(sc.clients) >= 9:
+                continue
+            mount = rng.choice(sc.mounts)
+            kind = rng.random()
+            cid = None
+            if kind < 0.25 and any(v["mount"] == mount for v in live.values()):
+                cid = rng.choice(sorted(v["cid"] for v in live.values() if v["mount"] == mount))     # displaces
+            elif kind < 0.45 and gone_cids.get(mount):
+                cid = rng.choice(sorted(gone_cids[mount]))                                         # comes back
+            elif kind < 0.52:
+                cid = "~"
+            sc.k += 1
+            name = f"c{sc.k}"
+            cid = cid or (PREFIX_CID[mount] + str(sc.k // 2) if sc.prefix_names else f"id{sc.k}")
+            will = rng.choice([None, None, ("w/t", rng.choice(["6465", "-"]), rng.choice([0, 1, 2]), rng.choice([0, 0, 1]))])
+            spec = "-" if not will else f"{will[0]}:{will[1]}:{will[2]}:{will[3]}"
+            node = rng.randrange(nn)
+            ka = rng.choice([60, 60, 60, 5, 600])
+            sc.clients[name] = {"node": node, "mount": mount, "cid": cid, "will": will, "subs": {}, "alive": True}
+            for x, v in list(live.items()):
+                if v["mount"] == mount and v["cid"] == cid:
+                    v["displaced"] = True
+            live[name] = {"node": node, "mount": mount, "cid": cid, "muted": False}
+            sc.ops.append(f"connect {name} {node} {cid} {mount} {ka} {spec}")
+        elif r < 0.30:
+            c = rng.choice(names)
+            if live[c]["muted"]:
+                continue        # (a SUBSCRIBE whose SUBACK fails skips the retained replay: kept out, see Driver/Broker.lean)
+            sc.mid += 1
+            fl = rng.sample(filters, rng.choice([1, 1, 2, 3]))
+            sc.ops.append(f"sub {c} {sc.mid} " + ",".join(f"{f}:{rng.choice([0, 1, 2])}" for f in fl))
+            if live.get(c) and not live[c]["muted"]:
+                sc.ops.append(f"ackall {c}")
+        elif r < 0.35:
+            c = rng.choice(names)
+            sc.mid += 1
+            sc.ops.append(f"unsub {c} {sc.mid} " + ",".join(rng.sample(filters, rng.choice([1, 2]))))
+            if live[c]["muted"]:
+                live.pop(c)
+        elif r < 0.60:
+            c = rng.choice(names)
+            sc.mid += 1
+            q = rng.choice([0, 1, 1, 2])
+            retain = 1 if rng.random() < 0.25 else 0
+            pl = rng.choice(["01", "0203", "-", "ff"])
+            sc.ops.append(f"pub {c} {rng.choice(topics)} {pl} {q} {retain} {rng.choice([0, 0, 1])} {sc.mid}")
+            if q == 2:
+                if live[c]["muted"]:
+                    live.pop(c)
+                elif rng.random() < 0.75:
+                    sc.ops.append(f"rawack {c} pubrel {sc.mid}")
+                    if rng.random() < 0.3:
+                        sc.ops.append(f"rawack {c} pubrel {sc.mid}")
+            ack_some()
+        elif r < 0.66:
+            c = rng.choice(names)
+            sc.ops.append(f"ping {c}")
+            if live[c]["muted"] or live[c].get("displaced"):
+                live.pop(c, None)
+        elif r < 0.76:
+            c = rng.choice(names)
+            how = rng.choice(["disconnect", "drop", "drop", "connect-again"])
+            v = live.pop(c)
+            gone_cids.setdefault(v["mount"], set()).add(v["cid"])
+            if how == "connect-again":
+                from checks import wirelib
+                sc.ops.append(f"raw {c} {wirelib.connect('again', user=v['mount']).hex()}")
+            else:
+                sc.ops.append(f"{how} {c}")
+            ack_some()
+        elif r < 0.80:
+            c = rng.choice(names)
+            live[c]["muted"] = not live[c]["muted"]
+            sc.ops.append(f"mute {c} {1 if live[c]['muted'] else 0}")
+        elif r < 0.86:
+            sc.ops.append(f"expire {rng.randrange(nn)}")
+            ack_some()
+        elif r < 0.88:
+            sc.ops.append(f"elapse {rng.choice([4000, 9000, 70000, 125000])}")
+            # whoever was silent for too long is gone; the model knows who — the script only forgets them all
+            for x in list(live):
+                sc.ops.append(f"ping {x}")
+            live = {x: v for x, v in live.items() if False}
+        elif r < 0.91:
+            n = rng.randrange(nn)
+            sc.ops.append(rng.choice([f"logfail {n} all", f"logfail {n} none", f"unreachable {n} 1" if n else f"logfail {n} none", f"unreachable {n} 0" if n else f"logfail {n} none"]))
+        elif r < 0.97:
+            if nn > 1:
+                a, b = rng.sample(range(nn), 2)
+                sc.ops.append(rng.choice([f"bc {a} {b}", f"bc {a} {b}", "gossip", f"losegossip {a} {b}", f"sync {a} {b}"]))
+        else:
+            sc.ops.append(rng.choice([f"state {rng.randrange(nn)}", f"pool {rng.randrange(nn)}", f"log {rng.randrange(nn)}"]))
+    # everything is delivered; every node lists the same
+    for n in range(nn):
+        sc.ops.append(f"logfail {n} none")
+        if n:
+            sc.ops.append(f"unreachable {n} 0")
+    if nn > 1:
+        for a in range(nn):
+            for b in range(nn):
+                if a != b:
+                    sc.ops.append(f"sync {a} {b}")
+        sc.ops.append("gossip")
+    for n in range(nn):
+        sc.ops.append(f"state {n}")
+        sc.ops.append(f"pool {n}")
+    return sc
+
+
 def gen_broken_recipient_qos(rng):
     """QoS 1/2 subscribers whose connection is broken (writes fail) while messages fan out: the healthy recipients get
     every message, now and after the broken sessions are gone and their exchanges have timed out; no identifier is both
